@@ -9,7 +9,7 @@
 From Coq Require Import List NArith Bool String.
 From Verif Require Import Lib.Utf8 Jsonx.Lex Jsonx.Tok Jsonx.GoStr Jsonx.Num Jsonx.NumProofs
   Jsonx.Parse Jsonx.Json Jsonx.Encode Jsonx.Print Jsonx.PrintProofs Jsonx.Roundtrip
-  Jsonx.GenTypes Gen.JsonxConsts Gen.JsonxOwn Jsonx.Own Jsonx.FileModel Jsonx.ConstsGen Jsonx.FileProofs Jsonx.NoLimit.
+  Jsonx.GenTypes Gen.JsonxConsts Gen.JsonxOwn Jsonx.Own Jsonx.FileModel Jsonx.ConstsGen Jsonx.FileProofs Jsonx.NoLimit Jsonx.ReadModel.
 Import ListNotations.
 Local Open Scope N_scope.
 
@@ -193,6 +193,30 @@ Theorem C07_overlay_write_refuted : forall old text tail,
   read_file (run_writes Overlay [(0%nat, old); (0%nat, text)] fs0) 0%nat = Some (text ++ tail).
 Proof. exact overlay_keeps_tail. Qed.
 Print Assumptions C07_overlay_write_refuted.
+
+(** ReadFile is a function of the file's current bytes: after any history of
+    rewrites (any content, any time stamp) and reads, every read answers what
+    the reader computes from the bytes on disk at that moment - the readers
+    keep no state (read from the source on this run). *)
+Theorem C07_readfile_reads_current_bytes : forall (R : Type) (F : list N -> R) h cur,
+  stateless R F cur h = map F (on_disk cur h).
+Proof. exact stateless_reads_current. Qed.
+Print Assumptions C07_readfile_reads_current_bytes.
+
+Theorem C07_readers_keep_no_state : gen_reader_state = [].
+Proof. exact gen_readfile_stateless. Qed.
+Print Assumptions C07_readers_keep_no_state.
+
+(** A cache keyed by length and time stamp answers the OLD value after a
+    rewrite of the same length with the same time stamp. *)
+Theorem C07_cached_reader_refuted : forall (R : Type) (F : list N -> R) c1 c2 t,
+  List.length c1 = List.length c2 -> F c1 <> F c2 ->
+  cached R F None (mkFile c1 t) [EvRead; EvWrite (mkFile c2 t); EvRead] = [F c1; F c1] /\
+  stateless R F (mkFile c1 t) [EvRead; EvWrite (mkFile c2 t); EvRead] = [F c1; F c2] /\
+  cached R F None (mkFile c1 t) [EvRead; EvWrite (mkFile c2 t); EvRead]
+  <> stateless R F (mkFile c1 t) [EvRead; EvWrite (mkFile c2 t); EvRead].
+Proof. exact cached_refuted. Qed.
+Print Assumptions C07_cached_reader_refuted.
 
 (** No token length limit: a string of ANY length n is printed as a literal
     that the lexer reads back as one token, whole and without error, and that
